@@ -26,7 +26,8 @@ Design  == [widen |-> FALSE, finals |-> FALSE]
 (* gr = [n, es, fin]: node count, edges <<[s, d, sym]>> in insertion order,*)
 (* final nodes.  Node 0 is the initial state.                              *)
 (***************************************************************************)
-EmptyGr == [n |-> 1, es |-> <<>>, fin |-> {}]
+(* alpha: every symbol ever inserted (the code's `alphabet`, which keeps the labels as they were BEFORE widening) *)
+EmptyGr == [n |-> 1, es |-> <<>>, fin |-> {}, alpha |-> {}]
 
 (* indices of the edges leaving s, most recently added first (petgraph adjacency order) *)
 RECURSIVE DescSeq(_)
@@ -51,10 +52,11 @@ FindNext(gr, idxs, sym, dev) ==
 RECURSIVE InsertFrom(_, _, _, _, _)
 InsertFrom(gr, cluster, cur, k, dev) ==
   IF k > Len(cluster) THEN [gr EXCEPT !.fin = @ \cup {cur}]
-  ELSE LET f == FindNext(gr, NbrIdx(gr, cur), cluster[k], dev) IN
+  ELSE LET gra == [gr EXCEPT !.alpha = @ \cup {cluster[k]}]
+           f == FindNext(gra, NbrIdx(gra, cur), cluster[k], dev) IN
        IF f.found THEN InsertFrom(f.gr, cluster, f.d, k + 1, dev)
-       ELSE InsertFrom([gr EXCEPT !.n = @ + 1,
-                                  !.es = Append(@, [s |-> cur, d |-> gr.n, sym |-> cluster[k]])],
+       ELSE InsertFrom([gra EXCEPT !.n = @ + 1,
+                                   !.es = Append(@, [s |-> cur, d |-> gr.n, sym |-> cluster[k]])],
                        cluster, gr.n, k + 1, dev)
 InsertCluster(gr, cluster, dev) == InsertFrom(gr, cluster, 0, 1, dev)
 
@@ -177,7 +179,7 @@ RepConvert(cluster, c) == ConvertReps(cluster, c, 4).gs
 SymKey(sym) == [i \in DOMAIN sym.u |-> sym.u[i][1]]
 SymLess(x, y) == IF SymKey(x) # SymKey(y) THEN LexLess(SymKey(x), SymKey(y))
                  ELSE IF x.lo # y.lo THEN x.lo < y.lo ELSE x.hi < y.hi
-AlphaSeq(gr) == SortSeq(SetToSeq({gr.es[i].sym : i \in DOMAIN gr.es}), SymLess)
+AlphaSeq(gr) == SortSeq(SetToSeq(gr.alpha), SymLess)
 
 LabelMatch(e, lab) == e.u = lab.u /\ (e.hi = lab.hi \/ e.lo = lab.lo)
 Parents(gr, A, lab) ==
